@@ -247,11 +247,11 @@ struct GuardedBlock {
     size_t n = 0;
     std::vector<uint8_t> shadow;
     explicit GuardedBlock(size_t size, uint8_t fill = 0xa5) : n(size) {
-        p = (uint8_t *)malloc(size ? size : 1);
+        p = (uint8_t *)::operator new(size ? size : 1);   // not malloc(): regpsim wraps that symbol to watch the library's heap use
         for (size_t i = 0; i < size; ++i) p[i] = (uint8_t)(fill ^ (i * 13));
         snap();
     }
-    ~GuardedBlock() { free(p); }
+    ~GuardedBlock() { ::operator delete(p); }
     GuardedBlock(const GuardedBlock &) = delete;
     GuardedBlock &operator=(const GuardedBlock &) = delete;
     void snap() { shadow.assign(p, p + n); }
